@@ -8,6 +8,7 @@ import (
 	"encoding/json"
 	"fmt"
 	"os"
+	"path"
 	"path/filepath"
 	"sort"
 	"strings"
@@ -324,6 +325,24 @@ func c11Run(c *core.C, idx int) {
 	nSel := c.Pick(4, 12)
 	for si := 0; si < nSel; si++ {
 		_, paths, excludes, kind := c01Selection(c, v)
+		if si == 0 && len(v.Files) > 0 {
+			// designed: a selection of existing paths that leaves no file — a directory with every file in it
+			// excluded (the excludes lie inside the path, which the stated domain allows), or every module excluded
+			f := v.Files[c.Rand.IntN(len(v.Files))]
+			d := path.Dir(f.WSPath())
+			paths, excludes, kind = []string{d}, nil, "empty:path-with-all-files-excluded"
+			for _, g := range v.Files {
+				if path.Dir(g.WSPath()) == d || model.ContainsPath(d, g.WSPath()) {
+					excludes = append(excludes, g.WSPath())
+				}
+			}
+			if c.Rand.IntN(2) == 0 {
+				paths, excludes, kind = nil, nil, "empty:every-module-excluded"
+				for _, m := range s.Modules {
+					excludes = append(excludes, m.Dir)
+				}
+			}
+		}
 		if kind == "all" {
 			continue
 		}
@@ -345,9 +364,7 @@ func c11Run(c *core.C, idx int) {
 			srcArgs = append(srcArgs, "--exclude-path", e)
 			imgArgs = append(imgArgs, "--exclude-path", toImport(e))
 		}
-		if len(model.Targets(v.Files, ".", paths, excludes)) == 0 {
-			continue
-		}
+		emptySelection := len(model.Targets(v.Files, ".", paths, excludes)) == 0
 		// a workspace-relative path and its module-relative spelling must denote the same files:
 		// directories such as "acme" exist in several modules and are ambiguous at the image level
 		ambiguous := false
@@ -382,6 +399,15 @@ func c11Run(c *core.C, idx int) {
 		a := run.Buf(wsDir, env, nil, srcArgs...)
 		b := run.Buf(wsDir, env, nil, imgArgs...)
 		c.Eval(2)
+		if emptySelection {
+			// nothing is selected: neither side can produce an image; the image must not "succeed" where the sources refuse
+			c.Count("empty_selections_compared", 1)
+			c.Distinct("selection_kinds", kind)
+			if (a.Code == 0) != (b.Code == 0) {
+				c.Violation("selection-exit-differs", key+" (selects no file)", fmt.Sprintf("a selection that leaves no file: build on sources exit %d (%s) vs on image exit %d (%s, %d bytes written)", a.Code, clip(a.Stderr), b.Code, clip(b.Stderr), len(b.Stdout)), nil)
+			}
+			continue
+		}
 		if a.Code != b.Code {
 			c.Violation("selection-exit-differs", key, fmt.Sprintf("build on sources exit %d (%s) vs on image exit %d (%s)", a.Code, clip(a.Stderr), b.Code, clip(b.Stderr)), nil)
 			continue
